@@ -693,5 +693,13 @@ def r03_illtyped_data(ctx):
         ctx.functions.add(q)
 
 
-RULES = [('R03.3-illtyped', r03_illtyped_data), ('R03.2', r03_2), ('R03.2b', r03_2b), ('R03.3-setattr', r03_3_setattr), ('R03.1-init', r03_3_init),
+def r03_frozen(ctx):
+    """freeze_message / thaw_message write message state too: what they produce has the same checked, normalised state as
+    their argument (sysex data a SysexData tuple - a list there is extended in place by `data += ...` BEFORE the check rejects
+    it).  Shared with C15 R15.1/R15.2."""
+    from . import c15
+    ctx.borrow(c15.r15_freeze_thaw, 'R03.6')
+
+
+RULES = [('R03.6', r03_frozen), ('R03.3-illtyped', r03_illtyped_data), ('R03.2', r03_2), ('R03.2b', r03_2b), ('R03.3-setattr', r03_3_setattr), ('R03.1-init', r03_3_init),
          ('R03.3-copy', r03_3_copy), ('R03.4', r03_4), ('R03.5', r03_5), ('R03.1-scan', r03_1_scan)]
